@@ -78,6 +78,9 @@ def run(res, replay=None):
     if not go_ok:
         return
     rng = random.Random(res.seed)
+    # correspondence of the row-level engine model (Model/Engine.v, theorems of Props/C07.v) with the engine
+    import enginecorr
+    enginecorr.run_corr(res, random.Random(res.seed * 7919 + 7), 100 if res.tier == "quick" else 1500, focus="index")
     c09.btree_probe(res)
     n = 24 if res.tier == "quick" else 250
     for i in range(n):
